@@ -278,6 +278,11 @@ impl CharProperty {
             categories.push(cate.to_string());
         }
 
+        if categories.is_empty() {
+            let msg = format!("A character range must have one category at least, {line}");
+            return Err(VibratoError::invalid_format("char.def", msg));
+        }
+
         Ok(CharRange {
             start,
             end,
